@@ -366,6 +366,10 @@ func leaderRoles(c *Ctx, id string) {
 					return fmt.Sprintf("%s is called %d times (expected once)", s, n)
 				}
 			}
+			// nothing else is done to the registry: a follower that registered before this callback ran must survive it
+			if all := out.Effects(recv + ".serviceDiscovery."); len(all) != len(steps) {
+				return "does more to the follower registry than " + strings.Join(steps, ", ") + ": " + out.TraceString()
+			}
 			return ""
 		}, strings.Join(t.steps, " and ")+", once each")
 	}
@@ -416,6 +420,9 @@ func leaderRoles(c *Ctx, id string) {
 		}
 		assigns := out.Effects(sdp + "AssignLeader")
 		regs := out.Effects("leaderClient.Register")
+		if all := out.Effects(sdp); len(all) != 3+len(assigns) {
+			return "does more to the registry than step down, forget followers, forget and record the leader: " + out.TraceString()
+		}
 		if st.B("connectFails") {
 			if len(assigns)+len(regs) != 0 || out.Panicked {
 				return "the leader could not be reached, but " + out.TraceString()
@@ -782,6 +789,30 @@ func rpcClientLifecycle(c *Ctx, id string) {
 		}
 		return ""
 	}, "dial ok ⇒ connection kept, marked connected, nil; failed ⇒ its error, state untouched")
+	// Reconnect dials anew whatever the client believes about its connection (the flag says nothing about the socket)
+	if rc := w.Method("servicediscovery", "client", "Reconnect"); rc != nil {
+		c.see(rc)
+		c.oae(id, "rpc-client:reconnect", rc.Pos(), &Harness{Fn: rc, Bools: []string{rc.Params[0].Name() + "." + flagField, "connectFails"}, Quiet: quietLog, NoInline: map[string]bool{fname(conn): true},
+			Oracle: func(st *State, name string, args []AV, res *types.Tuple) ([]AV, bool) {
+				if name == fname(conn) {
+					if st.B("connectFails") {
+						return []AV{avIface{sym: "errConnect"}}, true
+					}
+					return []AV{avIface{isNil: true}}, true
+				}
+				return nil, false
+			}}, func(st *State, out *Outcome) string {
+			if n := len(out.Effects(fname(conn))); n != 1 {
+				return fmt.Sprintf("connects %d times (connected flag: %v)", n, st.B(rc.Params[0].Name()+"."+flagField))
+			}
+			if e, ok := out.Ret[0].(avIface); !ok || e.isNil == st.B("connectFails") {
+				return "does not return the connect's outcome"
+			}
+			return ""
+		}, "connect once, whatever the connected flag says; its outcome returned")
+	} else {
+		c.Undecided(id, "rpc-client:reconnect", 0, "client.Reconnect not found")
+	}
 	c.see(cls)
 	cr := cls.Params[0].Name()
 	c.oae(id, "rpc-client:close", cls.Pos(), &Harness{Fn: cls, Bools: []string{cr + "." + flagField, "closeFails"}, Quiet: quietLog, InlineAll: false,
